@@ -81,7 +81,8 @@ def main():
             if pth.endswith("_test.go"):
                 tests = re.findall(r"^func (Test\w+)\(", open(pth).read(), re.M)
                 pk = "./" + os.path.relpath(os.path.dirname(pth), wt)
-                cmds.append(f"go test -vet=off -count=1 -run '^({'|'.join(tests)})$' {pk}")
+                tags = ("-tags " + os.environ["CONFIRM_TAGS"] + " ") if os.environ.get("CONFIRM_TAGS") else ""
+                cmds.append(f"go test {tags}-vet=off -count=1 -run '^({'|'.join(tests)})$' {pk}")
         if not cmds:
             rc = meta.get("demo_cmd") or meta.get("run")
             if rc:
